@@ -37,6 +37,34 @@ theorem emit_panic (l : Lib) (env : Env) (out : Out) (br : Branch) (w : Watch) (
     (l.emit env out br w r).out.panic = out.panic := by
   unfold Lib.emit; split <;> (try simp only) <;> (try split) <;> rfl
 
+theorem recurseAfter_events (h : HRes) (w : Watch) (r : Raw) (reg : Lib → Env → Path → BitVec 32 → Bool → Lib × Env × Out) :
+    (Lib.recurseAfter h w r reg).out.events = h.out.events := by
+  unfold Lib.recurseAfter
+  split
+  · split
+    · split <;> rfl
+    · rfl
+  · rfl
+
+theorem recurseAfter_norec (h : HRes) (w : Watch) (r : Raw) (reg : Lib → Env → Path → BitVec 32 → Bool → Lib × Env × Out)
+    (hw : w.recurse = false) : Lib.recurseAfter h w r reg = h := by
+  unfold Lib.recurseAfter
+  simp [hw]
+
+theorem recurseAfter_nodir (h : HRes) (w : Watch) (r : Raw) (reg : Lib → Env → Path → BitVec 32 → Bool → Lib × Env × Out)
+    (hd : test r.mask IN_ISDIR = false) : Lib.recurseAfter h w r reg = h := by
+  unfold Lib.recurseAfter
+  simp [hd]
+
+theorem recurseAfter_panic (h : HRes) (w : Watch) (r : Raw) (reg : Lib → Env → Path → BitVec 32 → Bool → Lib × Env × Out) :
+    (Lib.recurseAfter h w r reg).out.panic = h.out.panic := by
+  unfold Lib.recurseAfter
+  split
+  · split
+    · split <;> rfl
+    · rfl
+  · rfl
+
 theorem remove_events (l : Lib) (env : Env) (p : Path) : (l.remove env p).2.2.events = [] := by
   unfold Lib.remove; split <;> rfl
 
@@ -81,7 +109,7 @@ theorem handle_events (l : Lib) (env : Env) (r : Raw) :
           rcases afterMoveSelf_events (l.afterDeleteSelf w r) env w r with h | ⟨e, he, h1, h2, h3⟩
           · exact Or.inl h
           · exact Or.inr ⟨w, e, hw, he, h1, h2, h3, hign'⟩
-      · rw [if_neg hm]
+      · rw [if_neg hm, recurseAfter_events]
         rcases emit_events (l.afterDeleteSelf w r) env {} (if test r.mask IN_DELETE_SELF then .deleteSelf else .plain) w r
           with h | ⟨e, he, h1, h2, h3, _⟩
         · exact Or.inl (by rw [h])
